@@ -1034,6 +1034,18 @@ example : ([2, 1] : List Nat).length = ([1, 2] : List Nat).length ∧
     (∀ x ∈ binNDs [2, 1] [1, 2] ([1, 2, 1, 3] : List Rat), x ≠ 0) := by
   constructor <;> decide +kernel
 
+/-- **The weighted mean does not depend on the unit of the coordinates**: multiplying all weights by a common factor
+`c ≠ 0` (pixel areas in m² instead of in units of (10 µm)²: `c = S^d`) leaves every binned value unchanged — for
+weights of any size, every shape, every per-axis factor.  (The seeded `np.allclose(weights, weights[0])` shortcut,
+whose absolute tolerance makes the result depend on `c`, contradicts this theorem.) -/
+theorem bins_weighted_mean_unit_invariant (ss dims : List Nat) (v w : List K) (c : K) (hc : c ≠ 0) :
+    binWMeans ss dims v (w.map (c * ·)) = binWMeans ss dims v w := by
+  unfold binWMeans
+  rw [zipWith_mul_smul, binNDs_smul, binNDs_smul, zipWith_div_smul c hc]
+
+example : binWMeans [2] [2] ([1, 2, 3, 5] : List Rat) ([1, 3, 1, 1].map ((1 / 1024 : Rat) * ·)) = [7 / 4, 4] := by
+  decide +kernel
+
 /-- the binned field has one value per coarse pixel -/
 theorem bins_length (ss dims : List Nat) (hl : ss.length = dims.length) (v : List K)
     (h : v.length = fineSizes ss dims) : (binNDs ss dims v).length = size dims :=
